@@ -34,6 +34,28 @@ MODELS["const:numpy.inf"] = const_inf
 MODELS["const:numpy.nan"] = const_nan
 
 
+@model("jax.numpy.isfinite", "numpy.isfinite")
+def _isfinite(ip, x):
+    if is_fp(x):
+        return z3.And(z3.Not(z3.fpIsNaN(x)), z3.Not(z3.fpIsInf(x)))
+    if is_z3(x) and x.sort() in (z3.RealSort(), z3.IntSort()):
+        return True  # A-REAL: a real-sorted value has no infinities / NaN
+    if isinstance(x, (int, float)):
+        return x == x and x not in (float("inf"), float("-inf"))
+    raise Unsupported("isfinite")
+
+
+@model("jax.numpy.isinf", "numpy.isinf")
+def _isinf(ip, x):
+    if is_fp(x):
+        return z3.fpIsInf(x)
+    if is_z3(x) and x.sort() in (z3.RealSort(), z3.IntSort()):
+        return False
+    if isinstance(x, (int, float)):
+        return x in (float("inf"), float("-inf"))
+    raise Unsupported("isinf")
+
+
 @model("jax.numpy.isnan", "numpy.isnan")
 def _isnan(ip, x):
     if is_fp(x):
